@@ -2,6 +2,7 @@ package props
 
 import (
 	"fmt"
+	"os"
 	"sort"
 	"strings"
 	"testing"
@@ -145,6 +146,12 @@ func genC14(rt *rapid.T, h *harness.H) interface{} {
 	v1.What = "maximal admissible re-use of names"
 	_, v2 := render(d, p, c.Accept, c.Labels, "random", 12)
 	v2.What = "random fresh names"
+	if n := aliasCoincidences(r1); n > 0 {
+		h.S.Count("rendering_where_a_passed_provider_alias_meets_a_callee_binding")
+		if os.Getenv("VERIF_DEBUG_ALIAS") != "" {
+			h.S.Note("alias coincidence:\n" + r1.Text(nil))
+		}
+	}
 	perm := d.Permute(r1)
 	v3 := v1
 	v3.What = "re-used names + declarations permuted"
@@ -152,6 +159,33 @@ func genC14(rt *rapid.T, h *harness.H) interface{} {
 	c.Variants = []variantC14{v1, v2, v3}
 	h.S.Sample(map[string]interface{}{"base": c.Base, "reuse_rendering": v1.Text, "kept_steps": v1.Steps, "coincidences": v1.Cross, "accept": c.Accept})
 	return c
+}
+
+// aliasCoincidences counts calls that pass the caller's explicit provider name to a function
+// which binds the same spelling (parameter or binder) under its own provider name.
+func aliasCoincidences(p *ast.Program) int {
+	n := 0
+	for _, d := range p.Decls {
+		if d.Body == nil || d.Explicit == "" {
+			continue
+		}
+		d.Body.Walk(func(t *ast.Term) {
+			if t.Kind != ast.TCall || len(t.Args) == 0 || t.Args[0].S != d.Explicit {
+				return
+			}
+			f := p.Fun(t.Fn)
+			if f == nil || f.Explicit == "" || f.Explicit == d.Explicit {
+				return
+			}
+			for _, b := range gen.BoundNames(f) {
+				if b == d.Explicit {
+					n++
+					return
+				}
+			}
+		})
+	}
+	return n
 }
 
 func mapLabels(prints []string, pm map[string]string) string {
